@@ -241,6 +241,16 @@ impl Control for NewReno {
         self.on_packets_lost(lost_packets, persistent_lost);
     }
 
+    #[cfg(genmeta_gm_quic_verif)]
+    fn verif_state(&self) -> Option<(usize, usize, usize, Option<Instant>)> {
+        Some((
+            self.congestion_window,
+            self.ssthresh,
+            self.bytes_in_flight,
+            self.congestion_recovery_start_time,
+        ))
+    }
+
     fn congestion_window(&self) -> usize {
         self.congestion_window
     }
